@@ -114,6 +114,9 @@ func (c *EvalCtx) specSort(ty string) (string, types.Type) {
 		return "Real", types.Typ[types.Float64]
 	case "string":
 		return e.strSort(), types.Typ[types.String]
+	case "intset":
+		// a mathematical set of integers (map keys): visitedset, domset(m), emptyset, setadd, setin
+		return "(Array Int Bool)", nil
 	}
 	// Go type name: *T, T, pkg.T
 	t := c.resolveType(ty)
@@ -257,6 +260,16 @@ func (c *EvalCtx) eval(e Expr) Val {
 				return intVal(sn.clock)
 			}
 			return intVal(c.p.clock)
+		case "emptyset":
+			return Val{K: KScalar, S: "((as const (Array Int Bool)) false)", Sort: "(Array Int Bool)"}
+		case "visitedset":
+			// the keys the map iteration of the current loop has produced so far
+			if c.iterCell != "" {
+				if cell, ok := c.p.cells[c.iterCell]; ok && cell.K == KGhostMap && cell.GK == "Int" {
+					return Val{K: KScalar, S: cell.S, Sort: "(Array Int Bool)"}
+				}
+			}
+			c.fail("visitedset: no active iteration over an integer-keyed map")
 		}
 		if v, ok := c.lookup(e.Name); ok {
 			return v
@@ -888,6 +901,22 @@ func (c *EvalCtx) evalCall(e *ECall) Val {
 			b = s.brk
 		}
 		return boolVal("(and (> " + v.S + " 0) (< " + v.S + " " + b + "))")
+	case "setadd":
+		st := c.eval(e.Args[0])
+		k := c.eval(e.Args[1])
+		return Val{K: KScalar, S: store(st.S, k.S, "true"), Sort: "(Array Int Bool)"}
+	case "setin":
+		st := c.eval(e.Args[0])
+		k := c.eval(e.Args[1])
+		return boolVal(sel(st.S, k.S))
+	case "domset":
+		m := c.eval(e.Args[0])
+		if m.K == KScalar && m.T != nil {
+			if mt, ok := m.T.Underlying().(*types.Map); ok && eng.sortOf(mt.Key()) == "Int" {
+				return Val{K: KScalar, S: eng.mapDom(c.p, c.snap(), m.T, m.S), Sort: "(Array Int Bool)"}
+			}
+		}
+		c.fail("domset: %s is not an integer-keyed map", e.Args[0].String())
 	case "visited":
 		// visited(k): key k already produced by the map iteration of the current loop
 		k := c.eval(e.Args[0])
@@ -959,6 +988,36 @@ func (c *EvalCtx) readKeys(rd string) [][2]string {
 		}
 		for _, lf := range eng.leaves(t) {
 			out = append(out, [2]string{elemKey(t, lf.Path), arrSort("Int", arrSort("Int", lf.Sort))})
+		}
+		return out
+	}
+	if strings.HasPrefix(rd, "mapof(") {
+		// mapof(T.f): contents, domain and length of the maps stored in field f
+		fd := strings.TrimSuffix(strings.TrimPrefix(rd, "mapof("), ")")
+		j := strings.LastIndex(fd, ".")
+		if j < 0 {
+			c.fail("reads: bad descriptor %s", rd)
+		}
+		st := structOf(c.resolveType(fd[:j]))
+		if st == nil {
+			c.fail("reads: %s is not a struct", fd[:j])
+		}
+		for q := 0; q < st.NumFields(); q++ {
+			if st.Field(q).Name() != fd[j+1:] {
+				continue
+			}
+			mt, ok := st.Field(q).Type().Underlying().(*types.Map)
+			if !ok {
+				c.fail("reads: %s is not a map", fd)
+			}
+			ks := eng.sortOf(mt.Key())
+			for _, lf := range eng.leaves(mt.Elem()) {
+				out = append(out, [2]string{"M:" + mapKeyBase(st.Field(q).Type()) + lf.Path, arrSort("Int", arrSort(ks, lf.Sort))})
+			}
+			out = append(out, [2]string{"MD:" + mapKeyBase(st.Field(q).Type()), arrSort("Int", arrSort(ks, "Bool"))})
+		}
+		if len(out) == 0 {
+			c.fail("reads: no field %s", fd)
 		}
 		return out
 	}
